@@ -89,8 +89,50 @@ def _setup_real():
             return tuple(i[1].item for i in items)
 
     decl.topological = TopoProxy()
+
+    from edb.edgeql import tracer as qltracer
+
+    class TracerProxy:
+        """stands in for the `tracer` module inside declarative.py only: `trace_refs` must be a
+        FUNCTION of its arguments — it may not add / drop entries of the loader's object index
+        (which would change what later declarations resolve to), and when such residue exists
+        the refs it computes must not depend on it"""
+
+        def __getattr__(self, name):
+            return getattr(qltracer, name)
+
+        @staticmethod
+        def trace_refs(qltree, *, objects, **kw):
+            stale = [k for k in objects if getattr(k, 'module', None) == '__alias__']
+            before = set(objects)
+            res = qltracer.trace_refs(qltree, objects=objects, **kw)
+            after = set(objects)
+            rec = None
+            if before != after:
+                rec = {'kind': 'index-changed', 'added': sorted(map(str, after - before)),
+                       'removed': sorted(map(str, before - after))}
+            if stale:
+                # residue of an earlier call is present: compare with a trace that does not see it
+                clean = {k: v for k, v in objects.items() if getattr(k, 'module', None) != '__alias__'}
+                try:
+                    cres = qltracer.trace_refs(qltree, objects=clean, **kw)
+                except Exception as e:
+                    cres = (frozenset(), frozenset())
+                    rec = {'kind': 'clean-trace-raised', 'err': f'{type(e).__name__}: {e}'[:200]}
+                if not (cres[0] <= res[0] and cres[1] <= (res[1] | res[0])):
+                    rec = {'kind': 'refs-depend-on-residue', 'stale': sorted(map(str, stale)),
+                           'refs_in_context': sorted(map(str, res[0])), 'refs_alone': sorted(map(str, cres[0]))}
+            if rec is not None:
+                try:
+                    rec['expr'] = qlcodegen.generate_source(qltree)[:200]
+                except Exception:
+                    rec['expr'] = repr(qltree)[:200]
+                _W['tracer'].append(rec)
+            return res
+
+    decl.qltracer = TracerProxy()
     _W.update(ready=True, std=std, qlparser=qlparser, qlcodegen=qlcodegen, s_ddl=s_ddl, cap=[],
-              base=(None, None))
+              base=(None, None), tracer=[])
     # warm the parser tables
     qlparser.parse_sdl('module default { type WarmUp; }')
 
@@ -189,6 +231,7 @@ def work(task):
     tag, sdl, base_sdl = task
     _setup_real()
     _W['cap'] = []
+    _W['tracer'] = []
     t0 = time.time()
     res = {'tag': tag, 'status': None, 'err': None, 'dump': None, 'xdump': None, 'graph': None, 'delta': None}
     try:
@@ -198,6 +241,7 @@ def work(task):
         sch = None
         res['status'] = 'err'
         res['err'] = (type(e).__name__, str(e)[:300])
+    res['tracer'] = list(_W['tracer'])[:6]
     caps = _W['cap']
     if caps:
         res['graph'] = caps[-1]
@@ -747,6 +791,64 @@ def family_variants(doc, rng, budget):
     return out, {'module': full}
 
 
+# ------------------------------------------------------------- alias-scope families
+# One declaration's body binds a name (FOR iterator / WITH alias / result alias / GROUP USING)
+# and a DIFFERENT declaration uses the same name as the leading name of a path: a function
+# parameter, a type, or an alias called like that.  Expression aliases must not outlive the
+# expression: every order is accepted and gives the same schema and the same graph.
+ALIAS_BINDERS = ('for-link', 'for-type', 'with', 'result-alias', 'group')
+ALIAS_USERS = ('param', 'type-named', 'alias-named')
+
+
+def _alias_universe(binder, user, var='x'):
+    u = G.Universe(['default'])
+    Item = G.TypeInfo('default', 'Item')
+    Item.own['name'] = G.PtrInfo('name', 'prop', 'str')
+    Cart = G.TypeInfo('default', 'Cart')
+    Cart.own['items'] = G.PtrInfo('items', 'link', Item, multi=True)
+    vname = G.Path(G.Var(var), [('p', 'name')])
+    if binder == 'for-link':
+        b = G.ForE(var, G.Path(None, [('p', 'items')]), vname)
+    elif binder == 'for-type':
+        b = G.ForE(var, G.Path(Item, []), vname)
+    elif binder == 'with':
+        b = G.WithE(var, G.Path(Item, []), vname)
+    elif binder == 'result-alias':
+        b = G.ResAlias(var, Item, G.Op('=', vname, G.Lit('a')))
+    elif binder == 'group':
+        b = G.GroupE(Item, var, 'name')
+    else:
+        raise AssertionError(binder)
+    total = G.PtrInfo('total', 'prop', 'str')
+    total.computed = G.Cast('str', G.Call(None, 'count', [b]))
+    Cart.own['total'] = total
+    tagname = var if user == 'type-named' else 'Tag'
+    Tag = G.TypeInfo('default', tagname)
+    Tag.own['title'] = G.PtrInfo('title', 'prop', 'str')
+    u.types = [Item, Cart, Tag]
+    if user == 'param':
+        u.fns.append(G.FnInfo('default', 'label', [(var, Tag)], 'optional str',
+                              G.Path(G.Var(var), [('p', 'title')]), 0))
+    elif user == 'type-named':
+        u.fns.append(G.FnInfo('default', 'cnt', [('s', 'str')], 'str',
+                              G.Op('++', G.Raw('s'), G.Cast('str', G.Call(None, 'count', [G.Path(Tag, [('p', 'title')])]))), 0))
+    elif user == 'alias-named':
+        u.aliases.append((('default', var), G.Sel(Tag)))
+        u.fns.append(G.FnInfo('default', 'cnt', [('s', 'str')], 'str',
+                              G.Op('++', G.Raw('s'), G.Cast('str', G.Call(None, 'count', [G.ObjRef(('default', var))]))), 0))
+    else:
+        raise AssertionError(user)
+    return u
+
+
+def alias_family_doc(binder, user):
+    u = _alias_universe(binder, user)
+    b = G.Builder(u, random.Random(0), cg, cg_params)
+    doc = G.Doc([G.Block('default', 'default', b.nodes())], label=f'alias:{binder}:{user}')
+    doc.meta.update(size='family', cyclic=None, family=f'alias:{binder}:{user}')
+    return doc
+
+
 # ------------------------------------------------------- cross-module inheritance families
 # Deterministic documents: every way a declaration can refer to an INHERITED pointer x where
 # the declaring ancestor lives (same module | another module | two levels up across two modules
@@ -1011,10 +1113,11 @@ def run(ctx: core.Ctx):
 def plans(quick: bool):
     """(size, permutations per document) for acyclic and injected-cycle documents.
     Measured: one load costs 0.1 s (10 nodes) .. 6 s (80 nodes with many expressions);
-    quick: ~280 generated loads + ~290 weak-edge-family loads + ~280 cross-module-family loads
+    quick: ~220 generated loads + ~260 weak-edge-family + ~200 alias-scope-family + ~280
+    cross-module-family loads
     + 380 probe loads: ~1.5 min on an idle 16-core machine, 3-4 min when it is shared."""
     if quick:
-        return ([('tiny', 14)] * 14 + [('small', 8)] * 5 + [('large', 3)] * 1,
+        return ([('tiny', 12)] * 13 + [('small', 7)] * 4 + [('large', 3)] * 1,
                 [('tiny', 5)] * 3 + [('small', 4)] * 1)
     return ([('tiny', 60)] * 100 + [('small', 30)] * 50 + [('large', 10)] * 12,
             [('tiny', 16)] * 24 + [('small', 10)] * 8)
@@ -1056,8 +1159,13 @@ def _run(ctx, pool, proved):
     fam_expect = {}
     for label, form, variant, expect in WEAK_FAMILIES:
         full = variant in ('chain2', 'hidden-fn-cycle')     # all orders even in the quick tier
-        docs.append((weak_family_doc(label, form, variant), 720 if (full or not quick) else 24))
+        docs.append((weak_family_doc(label, form, variant), 720 if (full or not quick) else 16))
         fam_expect[len(docs) - 1] = (label, expect)
+    for binder in ALIAS_BINDERS:
+        for user in ALIAS_USERS:
+            full = binder.startswith('for') and user != 'alias-named'
+            docs.append((alias_family_doc(binder, user), 720 if (full or not quick) else (24 if binder.startswith('for') else 5)))
+            fam_expect[len(docs) - 1] = (f'alias:{binder}:{user}', 'ok')
     for placement in XMOD_PLACEMENTS:
         for kind in XMOD_KINDS:
             if kind == 'mid-overload' and placement == 'nested':
@@ -1102,6 +1210,7 @@ def _run(ctx, pool, proved):
     per_doc = {}
     n_graph, n_graph_nodes, n_band, n_order_cmp, n_delta = 0, 0, 0, 0, 0
     n_dis = 0
+    n_tracer = 0
     n_edges = {'hard': 0, 'hard_forward': 0, 'weak': 0, 'loop_control': 0}
     verdict_hist, level_hist, kind_hist = {}, {}, {}
     invalid_docs, incomplete = 0, 0
@@ -1116,6 +1225,18 @@ def _run(ctx, pool, proved):
             continue
         out = outcome_of(res)
         verdict_hist[out] = verdict_hist.get(out, 0) + 1
+        # oracle on the tracer: a function of its arguments, no residue in the object index
+        if res.get('tracer'):
+            n_tracer += len(res['tracer'])
+            t = res['tracer'][0]
+            ctx.fail(f'tracer:context-leak:{key}',
+                     'trace_refs() is stateful: ' + (
+                         f"it left {t.get('added')} in / removed {t.get('removed')} from the loader's object index"
+                         if t['kind'] == 'index-changed' else
+                         f"the refs of `{t.get('expr')}` depend on residue {t.get('stale')} of an earlier trace: "
+                         f"{t.get('refs_in_context')} in context vs {t.get('refs_alone')} alone"
+                         if t['kind'] == 'refs-depend-on-residue' else str(t)),
+                     {'sdls': [task[1]], 'tracer': res['tracer']})
         # oracle on the real graph alone
         v = graph_verdict_check(res)
         if v:
@@ -1175,7 +1296,7 @@ def _run(ctx, pool, proved):
             fam_hist[flabel] = got
             if got != [expect]:
                 bad = next((x for x in vs if outcome_sig(x[4])[0] != expect))
-                ctx.fail(f'{flabel}:verdict' if flabel.startswith('xmod:') else f'weak:{flabel}:verdict',
+                ctx.fail(f'{flabel}:verdict' if flabel.startswith(('xmod:', 'alias:')) else f'weak:{flabel}:verdict',
                          f'family: expected {expect} in every declaration order, got {got} '
                          f'({sum(1 for x in vs if outcome_sig(x[4])[0] != expect)} of {len(vs)} orders differ)',
                          {'sdls': [bad[3]], 'errs': [bad[4]['err']], 'label': bad[1]})
@@ -1314,7 +1435,9 @@ def _run(ctx, pool, proved):
         'emitted_orders_compared': n_order_cmp,
         'delta_schemas_pairs': n_delta,
         'model_incomplete_documents': incomplete,
-        'weak_edge_families': {k: v for k, v in fam_hist.items() if not k.startswith('xmod:')},
+        'weak_edge_families': {k: v for k, v in fam_hist.items() if not k.startswith(('xmod:', 'alias:'))},
+        'alias_scope_families': {k: v for k, v in fam_hist.items() if k.startswith('alias:')},
+        'tracer_calls_leaving_residue': n_tracer,
         'cross_module_families': {k: v for k, v in fam_hist.items() if k.startswith('xmod:')},
         'probes': probe_hist, 'cycle_families': cyc_hist, 'model_families_compared': len(MODEL_FAMILIES),
         'disagreements_model_vs_impl': n_dis,
